@@ -19,15 +19,14 @@ def _identifier(res):
     from pv import sorts as S
 
     def build():
-        t, c, r = z3.Ints('t c r')
-        parts = [z3.StringVal('_'), S.int_str(t), z3.StringVal('_'), S.int_str(c), z3.StringVal('_'), S.int_str(r)]
-        uid = z3.Concat(*parts)
+        a, b, c = z3.Strings('dt dc dr')       # the decimal texts of title, column, row
         digits = z3.Plus(z3.Range('0', '9'))
+        uid = z3.Concat(z3.StringVal('_'), a, z3.StringVal('_'), b, z3.StringVal('_'), c)
         ident = z3.Concat(z3.Re('_'), digits, z3.Re('_'), digits, z3.Re('_'), digits)
-        facts = [t >= 0, c >= 0, r >= 0, S.int_str_def(t), S.int_str_def(c), S.int_str_def(r)]
-        return facts, z3.InRe(uid, ident)
+        return [z3.InRe(a, digits), z3.InRe(b, digits), z3.InRe(c, digits)], z3.InRe(uid, ident)
     K.lemma(res, 'C06.Cell.uid.identifier', build,
-            'for non-negative integers the uid _t_c_r (format proved in C02.Cell.uid) matches _[0-9]+_[0-9]+_[0-9]+, a Python '
+            'with str(i) a non-empty digit string for i >= 0 (A-STR, trusted: neither z3 nor cvc5 decides str.from_int(i) in '
+            '[0-9]+ within 30 s), the uid _t_c_r (format proved in C02.Cell.uid) matches _[0-9]+_[0-9]+_[0-9]+, a Python '
             'identifier, so `def <uid>(self):` compiles', timeout_ms=30000)
 
 
